@@ -61,6 +61,9 @@ func evalC18(t *testing.T, c *Case, st *Stats, relax Relax) *Violation {
 			pipes.Signature = format
 		}
 		gen := func(password string) ([]byte, []byte, error) {
+			// key derivation is CPU-bound and bounded: prove liveness to the watchdog between the
+			// phases of a run (a loaded machine stretched one run beyond the watchdog's 150 s once)
+			defer heartbeat()
 			return utility.Keygen(pipes, config.PasswordConfig{Password: password})
 		}
 		priv, pub, err := gen(pw)
@@ -77,6 +80,7 @@ func evalC18(t *testing.T, c *Case, st *Stats, relax Relax) *Violation {
 		if d := c.Param("d1", 0); d > 0 {
 			x.S.Sleep(time.Duration(d) * time.Second)
 		}
+		heartbeat()
 		msg := (&Data{Len: int(c.Param("len", 100)), Kind: "rand", Tag: 18}).Bytes()
 		wrong := pw + "x"
 		if pw != "" && c.Seed%2 == 0 {
@@ -121,6 +125,7 @@ func evalC18(t *testing.T, c *Case, st *Stats, relax Relax) *Violation {
 			if err != nil || !bytes.Equal(got, msg) {
 				return mk("decrypt-differs", fmt.Sprintf("stream: err=%v %s != %s", err, sumOf(got), sumOf(msg)))
 			}
+			heartbeat()
 			// wrong password
 			if wid, err := keys.ParseIdentity(format, priv, wrong); err == nil {
 				// parsing may be lazy: the identity must at least be unusable
@@ -208,6 +213,7 @@ func evalC18(t *testing.T, c *Case, st *Stats, relax Relax) *Violation {
 			if err := vfin(); err != nil {
 				return mk("verify-fails", "stream: "+err.Error())
 			}
+			heartbeat()
 			// wrong password
 			if wid, err := keys.ParseSignerIdentity(format, priv, wrong); err == nil {
 				if _, err := signature.SignString("x", true, format, wid); err == nil {
